@@ -699,7 +699,8 @@ def _private_chain(b, rng, depth, cfg, level, shared=()):
         srcs = list(dict.fromkeys(srcs))
         consumed.update(x for x in srcs if x in priv)
         params = b.in_params(srcs)
-        if priv and level < cfg.get('max_nest', 1) and rng.random() < cfg.get('p_nest', 0.0):
+        if priv and level < cfg.get('max_nest', 1) and len(b.nodes) < cfg.get('max_nodes', 45) \
+                and rng.random() < cfg.get('p_nest', 0.0):
             params = _add_construct(b, rng, params, cfg, level + 1)
         priv.append(b.new(params, public=False))
     return priv[-1]
